@@ -196,6 +196,7 @@ impl Whirlpool {
 //@ assume token-badge handler shims: WhirlpoolsConfig::verify_enabled_feature (bitflags `contains`) is an external stub over the uninterpreted predicate feature_enabled; ConfigFeatureFlags::TOKEN_BADGE is the opaque constant flag_token_badge(); the mint account is a key-only placeholder
 pub struct Mint {}
 pub use crate::authority::InterfaceAccount;
+impl<'a> InterfaceAccount<'a, Mint> { pub fn key(&self) -> (r: Pubkey) ensures r == *self.info.key { *self.info.key } }
 pub uninterp spec fn feature_enabled(flags: u16, f: crate::validators::ConfigFeatureFlags) -> bool;
 pub uninterp spec fn flag_token_badge_spec() -> crate::validators::ConfigFeatureFlags;
 #[verifier::external_body]
